@@ -111,16 +111,13 @@ def case_to_coq(c):
                                       coq_bool(i["http"]), exp, coq_list([c_sample(s) for s in c.get("samples") or []]))
 
 
-REPAIRED_TREE = os.environ.get("VERIF_C14_MODEL", "") == "repaired"
-
-
 def shard_text(cases, tab, fcases=()):
     body = ";\n  ".join(case_to_coq(c) for c in cases)
     rows = ";\n  ".join("TabRow %s %s %s %s %s %s" % (coq_str(r["t_name"]), coq_str(r["t_peer"]), coq_str(r["a_name"]),
                                                      coq_str(r["a_peer"]), coq_bool(r["match"]), coq_N(r["t_wild"]))
                         for r in tab)
     fbody = ";\n  ".join("FCase %s (%s)" % (coq_bool(shadow), case_to_coq(c)) for shadow, c in fcases)
-    mm = "mismatches_repaired_tree" if REPAIRED_TREE else "mismatches"
+    mm = "mismatches"
     return ("From Verif Require Import Base.Prelude RBAC.Model Run.C14.\n"
             "Definition cases : list case := [\n  %s\n].\n"
             "Definition tab : list tabrow := [\n  %s\n].\n"
@@ -174,7 +171,7 @@ def run(ctx):
         "reference semantics of the Go oracle: consul's own IntentionPrecedenceSorter and connect.IntentionMatch, cross-checked on every case against state.Store.IntentionDecision; first matching permission decides, no match falls to the default policy (service-intentions documentation)",
         "sort.Sort(IntentionPrecedenceSorter) is modelled as a stable insertion sort (Go's pdqsort IS an insertion sort up to 12 elements; lists a store hands over have no comparator ties, so any sort gives the same order)",
         "modelled, not verified: JWT requirements (providerMap = nil); sameness groups (expanded before); enterprise namespaces/partitions are in the model but the community-edition build only exercises 'default'; wildcard partition/peer panics; Envoy itself (the evaluators follow the RBAC filter's and HeaderMatcher's DOCUMENTED semantics, incl. 'a value matcher on an absent header is ignored, will not match, even with invert_match' - route_components.proto); raw XFCC text variants (DNS= after URI=, quoted commas, sanitised header) and the listeners.go delivery step (which list, default and bundles reach makeRBACRules) are assumptions",
-        "a disagreement of the oracle is excused only if (1) a counterfactual run of the REAL translator attributes it to the cause of an open finding (input without shadowed intentions / inverted value matcher matching an absent header / trust domain or partition read as the regex it is spliced in as), (2) its replay, shrunk under 'same point, same cause', matches that finding's narrow signature, and (3) the Coq model reproduces the two verdicts (for the superset defect additionally: translate_repaired gives the precedence verdict)"]
+        "a disagreement of the oracle is excused only if (1) a counterfactual run of the REAL translator attributes it to the cause of an open finding (inverted value matcher matching an absent header / trust domain or partition read as the regex it is spliced in as; the counterfactual 'input without shadowed intentions' is kept as a diagnostic and names a regression of 214d73a, which is a VIOLATION), (2) its replay, shrunk under 'same point, same cause', matches that finding's narrow signature, and (3) the Coq model reproduces the two verdicts "]
     assumptions = ["regex engine on method alternations", "segment-wise reading of built SPIFFE patterns", "TLS authenticates trust domains",
                    "partitions (still spliced unquoted) contain no regex metacharacter", "Envoy HeaderMatcher semantics as documented"]
     if not ok:
@@ -260,7 +257,7 @@ def run(ctx):
             continue
         seen_f.add(key)
         fc = {"input": f["coq"]["input"], "impl": f["coq"]["impl"], "impl_err": "", "samples": f["coq"]["samples"]}
-        fcases.append((kf["signature"]["kind"] == "precedence-removal", fc, f))
+        fcases.append((False, fc, f))
     # stratified by finding kind so that a frequent class cannot crowd out the others
     fcap = 120 if ctx.tier == "thorough" else 30
     per_kind = collections.Counter()
@@ -351,7 +348,7 @@ def run(ctx):
         "masked_findings_replayed_in_coq": len(fcases),
         "masked_findings_not_reproduced_by_model": len(finding_fail),
         "masked_findings_without_coq_case": unreplayable,
-        "model_compared": "translate_repaired (VERIF_C14_MODEL=repaired)" if REPAIRED_TREE else "translate",
+        "model_compared": "translate (= makeRBACRules of /repo HEAD, incl. removeShadowedSourceIntentions)",
         "oracle_failing_classes_known": dict(known_hits),
         "oracle_failing_classes_unknown": len(seen_sig),
         "harness_self_check_failures": len(problems),
